@@ -473,3 +473,60 @@ kf_harness!(c14_kf_initial_exceeds_max, |o, i, mx, m, j| !(m < 0.0) && !j && i >
 // @encodes cascette_protocol::retry::RetryPolicy::execute
 // @assumes as c14_kf_negative_multiplier; <Duration as AddAssign>::add_assign replaced by a twin that asserts (label KF:) where the real one panics; EXPECTED TO FAIL on the unchanged tree: genuine defect (a server-supplied Retry-After near u64::MAX seconds plus jitter overflows Duration; the default policy has jitter on)
 kf_harness!(c14_kf_jitter_overflow, |o, i, mx, m, j| m == 2.0 && j && i <= mx && mx.as_secs() < TWO_POW_62 && o.kind == K_RATE_HINT && o.hint.as_secs() >= (1 << 63));
+
+// ---- jitter -----------------------------------------------------------------------------------
+// One retry with jitter on.  The generator word is drawn by the harness; the real
+// `random_range(0.0..0.3)` float sampling and the real `(ms as f64 * jitter) as u64` run on it.
+// Bound checked in exact integer arithmetic: extra_ms * 10 <= base_ms * 3 (base < 2^31 s keeps
+// `ms as f64` exact, so no rounding slack is needed).
+macro_rules! retry_jitter {
+    ($name:ident, $word:expr) => {
+        #[kani::proof]
+        #[kani::unwind(3)]
+        #[kani::stub(tracing_core::callsite::DefaultCallsite::interest, interest_never)]
+        #[kani::stub(tracing::__macro_support::__is_enabled, is_enabled_false)]
+        #[kani::stub(tracing_core::event::Event::dispatch, dispatch_nop)]
+        #[kani::stub(std::fmt::format, crate::stubs::fmt_format_empty)]
+        #[kani::stub(rand::rngs::thread::rng, fake_thread_rng)]
+        #[kani::stub(<rand::rngs::ThreadRng as rand::TryRng>::try_next_u64, fake_try_next_u64)]
+        #[kani::stub(reqwest::Error::is_timeout, reqwest_pred_false)]
+        #[kani::stub(reqwest::Error::is_connect, reqwest_pred_false)]
+        #[kani::stub(std::io::ErrorKind::from_prim, error_kind_from_prim_other)]
+        fn $name() {
+            let initial = any_duration();
+            let first = any_outcome();
+            let w: u64 = $word;
+            kani::assume(first.kind != K_OK && spec_retryable(&first));
+            kani::assume(initial.as_secs() < (1 << 31) && first.hint.as_secs() < (1 << 31));
+            let outs = [first, Outcome { kind: K_OK, val: 7, code: 100, hint: Duration::ZERO }];
+            unsafe {
+                JITTER_WORDS[0] = w;
+                JITTER_DRAWS = 0;
+            }
+            let policy = RetryPolicy { max_attempts: 1, initial_backoff: initial, max_backoff: Duration::from_secs(1 << 31), multiplier: 2.0, jitter: true };
+            let (res, calls) = run::<2>(&policy, &outs);
+            assert!(calls == 2 && same_result(&res, &outs[1]), "one retry, then the success is returned");
+            assert!(clock::count() == 1, "exactly one wait");
+            assert!(unsafe { JITTER_DRAWS } == 1, "exactly one jitter draw per wait");
+            let base = if first.kind == K_RATE_HINT { first.hint } else { initial };
+            let d = clock::get(0);
+            assert!(d >= base, "jitter must not shorten the wait");
+            let extra = d - base;
+            assert!(extra.subsec_nanos() % 1_000_000 == 0, "jitter is a whole number of milliseconds");
+            let extra_ms = extra.as_millis();
+            let base_ms = base.as_millis();
+            assert!(extra_ms * 10 <= base_ms * 3, "jitter exceeds 30% of the wait");
+            kani::cover!(extra_ms > 0 && first.kind == K_RATE_HINT, "non-zero jitter on a hinted wait");
+            kani::cover!(extra_ms * 10 + 10 > base_ms * 3 && base_ms > 1000, "jitter close to the 30% bound");
+            std::mem::forget(res);
+        }
+    };
+}
+// @family prop=C14 tier=quick timeout=900 replay=none role=retry-jitter
+// @bounds one retryable failure (kind symbolic; hinted or not) then Ok, max_attempts = 1, jitter on; base wait (initial_backoff or Retry-After hint) any Duration < 2^31 s; generator word: `top` = the 12 most significant bits symbolic, rest ones (4096 draws spread over [0, 0.3], incl. the largest possible); `low` = the 52 low bits symbolic, top bits ones (draws next to the upper end)
+// @encodes cascette_protocol::retry::RetryPolicy::execute, rand::RngExt::random_range, rand::distr::uniform::UniformFloat::sample_single_inclusive
+// @assumes as c14_retry_loop_control_a1; rand::rng replaced by a handle on a static fake Rc, ThreadRng::try_next_u64 returns the harness-drawn word (native replay would use the real generator: replay=none); the generator word is restricted as stated (a fully symbolic word makes the bound a 53x53-bit multiplier inequality)
+// @catches jitter range widened (0.0..0.5), jitter applied twice or to the hint only / back-off only, jitter subtracted, seconds/milliseconds mixed up in the jitter computation, jitter drawn but not added
+retry_jitter!(c14_retry_jitter_top, (kani::any::<u64>() | 0x000F_FFFF_FFFF_FFFF));
+retry_jitter!(c14_retry_jitter_low, (kani::any::<u64>() | 0xFFF0_0000_0000_0000));
+// @end
